@@ -150,6 +150,97 @@ pub fn nal_bytes(hevc: bool, g: &NalGene, tag: u64) -> Vec<u8> {
         ];
         nal.extend_from_slice(OPEN[(g.fill - 160) as usize % OPEN.len()]);
     }
+    if hevc && g.typ & 0x3f == 33 && (160..192).contains(&g.fill) {
+        // an H.265 SPS that opens like a real one, up to bit_depth_chroma_minus8 (H.265 7.3.2.2 / 7.3.3):
+        // (max_sub_layers_minus1, sub-layer (profile_present, level_present) flags, chroma_format_idc, separate planes,
+        //  conformance window, bit_depth_luma_minus8, bit_depth_chroma_minus8)
+        const V: [(u8, &[(bool, bool)], u32, bool, bool, u32, u32); 10] = [
+            (0, &[], 1, false, false, 0, 0),
+            (0, &[], 1, false, true, 2, 2),
+            (0, &[], 2, false, false, 2, 2),
+            (0, &[], 3, false, true, 0, 0),
+            (0, &[], 3, true, false, 4, 4),
+            (0, &[], 0, false, false, 0, 0),
+            (2, &[(false, true), (false, false)], 1, false, false, 0, 0),
+            (1, &[(true, false)], 1, false, true, 2, 2),
+            (3, &[(true, true), (false, true), (true, false)], 2, false, false, 2, 0),
+            (6, &[(false, true), (true, false), (false, false), (false, true), (true, true), (false, false)], 1, false, false, 0, 0),
+        ];
+        let (msl, flags, chroma, separate, window, luma8, chroma8) = V[(g.fill - 160) as usize % V.len()];
+        let mut bits: Vec<bool> = Vec::new();
+        let mut put = |v: u64, n: usize, bits: &mut Vec<bool>| {
+            for i in (0..n).rev() {
+                bits.push((v >> i) & 1 == 1);
+            }
+        };
+        let ue = |v: u32, bits: &mut Vec<bool>| {
+            let x = v as u64 + 1;
+            let len = 64 - x.leading_zeros() as usize;
+            for _ in 0..len - 1 {
+                bits.push(false);
+            }
+            for i in (0..len).rev() {
+                bits.push((x >> i) & 1 == 1);
+            }
+        };
+        put(0, 4, &mut bits); // sps_video_parameter_set_id
+        put(msl as u64, 3, &mut bits);
+        put(1, 1, &mut bits); // temporal id nesting
+        // general profile_tier_level: profile space 0, tier 0, profile 1 or 2; compatibility; flags; level
+        put(0, 2, &mut bits);
+        put(0, 1, &mut bits);
+        put(if luma8 > 0 { 2 } else { 1 }, 5, &mut bits);
+        put(0x6000_0000, 32, &mut bits);
+        put(0b1001, 4, &mut bits);
+        put(0, 43, &mut bits);
+        put(0, 1, &mut bits);
+        put(93, 8, &mut bits);
+        for (p, l) in flags {
+            put(*p as u64, 1, &mut bits);
+            put(*l as u64, 1, &mut bits);
+        }
+        if msl > 0 {
+            for _ in msl..8 {
+                put(0, 2, &mut bits);
+            }
+        }
+        for (k, (p, l)) in flags.iter().enumerate() {
+            if *p {
+                put(0, 2, &mut bits);
+                put(0, 1, &mut bits);
+                put(1, 5, &mut bits);
+                put(0x6000_0000, 32, &mut bits);
+                put(0b1001, 4, &mut bits);
+                put(0x155 + k as u64, 43, &mut bits);
+                put(0, 1, &mut bits);
+            }
+            if *l {
+                put(60 + 3 * k as u64, 8, &mut bits);
+            }
+        }
+        ue(0, &mut bits); // sps_seq_parameter_set_id
+        ue(chroma, &mut bits);
+        if chroma == 3 {
+            put(separate as u64, 1, &mut bits);
+        }
+        ue(1920, &mut bits);
+        ue(1088, &mut bits);
+        put(window as u64, 1, &mut bits);
+        if window {
+            ue(0, &mut bits);
+            ue(0, &mut bits);
+            ue(0, &mut bits);
+            ue(4, &mut bits);
+        }
+        ue(luma8, &mut bits);
+        ue(chroma8, &mut bits);
+        while bits.len() % 8 != 0 {
+            bits.push(true);
+        }
+        for ch in bits.chunks(8) {
+            nal.push(ch.iter().fold(0u8, |a, b| (a << 1) | *b as u8));
+        }
+    }
     // EPB over header+body so that a zero header byte followed by zeros is handled as well
     nal.extend_from_slice(&body);
     if g.fill >= 192 && g.fill < 254 {
